@@ -46,6 +46,14 @@ static std::string handle(const std::vector<std::string>& a) {
     if (os.str() != s1 || n2 != n1) res += " OSTREAM-DIFFERS";
     if (cw.out != s1 || n3 != n1) res += " CUSTOMWRITER-DIFFERS";
     if (pm.out != s1 || n4 != n1) res += " PRINT-DIFFERS";
+    if (a[2].find('i') != std::string::npos) {
+      // the same document with its non-negative integers stored through signed types: same bytes
+      JsonDocument doc2;
+      DumpParser p2(a[2]);
+      p2.signedInts = true;
+      std::string s6;
+      if (p2.build(doc2.to<JsonVariant>())) { ser_to(fmt, doc2.as<JsonVariantConst>(), s6); if (s6 != s1) res += " SIGNED-STORAGE-DIFFERS"; }
+    }
     if (fmt != 2 && s1.find('\0') == std::string::npos) {   // Arduino String cannot hold NUL
       ::String as; as.limitCapacityTo(size_t(1) << 30); size_t n5 = ser_to(fmt, v, as);
       if (std::string(as.c_str(), as.length()) != s1 || n5 != n1) res += " ARDUINOSTRING-DIFFERS";
